@@ -47,6 +47,9 @@ func pipelined(ctx *hx.Ctx) {
 		desc := fmt.Sprintf("prefix=%s suffix=%v", p.name, suffix)
 		// sequential twin (also a correspondence case)
 		twin := runCase(c, mkCase(255, true, "pipelined twin", append(append([]request(nil), p.reqs...), suffix...)))
+		if twin.caseLine == "" {
+			break // the run is being aborted after repeated hangs
+		}
 		idx := ctx.Corr(twin.caseLine, twin.implLine)
 		for _, f := range twin.fails {
 			ctx.Failf(idx, f.class, twin.caseLine, "%s", f.detail)
